@@ -338,7 +338,10 @@ struct VM : VMBase
   int live_logged_threads = 0;
   std::vector<bool> thread_logged;
 
-  VM(Plan const& p, History& h) : VMBase(p, h) {}
+  VM(Plan const& p, History& h) : VMBase(p, h)
+  {
+    slots.reserve(256); // loggers created later (also by several threads at once) must not move the others
+  }
 
   quill::BackendOptions backend_options()
   {
@@ -428,9 +431,18 @@ struct VM : VMBase
     lg->set_log_level(quill::LogLevel::TraceL3);
     if (static_cast<int>(slots.size()) <= slot)
     {
-      slots.resize(static_cast<size_t>(slot) + 1);
+      slots.resize(static_cast<size_t>(slot) + 1); // (capacity reserved at construction: references stay valid)
     }
     Slot& s = slots[static_cast<size_t>(slot)];
+    if (s.valid && s.name == name && s.lg != lg)
+    {
+      // another thread created the same name while this call was in progress: both must have got the same object
+      record(EV_GET_LOGGER, slot, 1, 0);
+    }
+    else if (s.valid && s.name == name)
+    {
+      record(EV_GET_LOGGER, slot, 1, 1);
+    }
     s.lg = lg;
     s.valid = true;
     s.sink_mask = sink_mask;
